@@ -53,6 +53,7 @@ def run(ctx):
     r19g(ctx)
     r19i(ctx)
     r19j(ctx)
+    r19k(ctx)
 
 
 def global_value(prog, name):
@@ -946,3 +947,60 @@ def r19j(ctx):
         else:
             ctx.bad('R19j', key, bad[1], f)
     ctx.floor('R19j', n_ok, 10)
+
+
+def carried_cells(a, arg, st):
+    """cells of the local array handed over in `arg` whose value at this point still depends on what the array held at the head
+    of an enclosing or preceding loop iteration (a loop-head phi of one of its own cells in the transitive phi sources)"""
+    T = a.T
+    heads = set(a.loop_nodes.keys())
+    out = []
+    base = None
+    for x in T.subterms(arg):
+        n = T.node(x)
+        if n[0] == 'phi' and isinstance(n[2], tuple) and n[2] and n[2][0] == 'e' and isinstance(n[2][1], tuple) and n[2][1][0] == 'v':
+            base = n[2][1]
+            break
+    if base is None:
+        return out, None
+    for loc, val in st.env.items():
+        if not (isinstance(loc, tuple) and loc[0] == 'e' and loc[1] == base and isinstance(loc[2], int)):
+            continue            # individually addressed cells only (a summary cell is weakly updated by any fill loop)
+        hit = any(T.node(x)[0] == 'phi' and T.node(x)[1] in heads and isinstance(T.node(x)[2], tuple) and T.node(x)[2] == loc
+                  for x in T.subterms(val))
+        if hit:
+            out.append(loc[2])
+    return sorted(out, key=str), base[2]
+
+
+def r19k(ctx):
+    """AEAD chunk nonces (draft RFC 4880bis 5.16: "treating the starting initialization vector as a big-endian value and
+    exclusive-oring the low eight octets of it with the chunk index"): at every gcry_cipher_setiv of the chunked AEAD routines
+    the nonce buffer must be the *starting* IV with the index mixed in -- none of its cells may still carry what an earlier
+    iteration of the chunk loop left there.  A running `ivbuf[k] ^= index` gives chunk c the nonce IV xor (0^1^...^c): other
+    octets than the standard's from the third chunk on, and the nonce of chunk 0 again for chunk 3 (same key)."""
+    prog = ctx.prog
+    C = 'CallasDonnerhackeFinneyShawThayerRFC4880::'
+    n = 0
+    for name in ('SymmetricEncryptAEAD', 'SymmetricDecryptAEAD'):
+        f = prog.fn(C + name, 0)
+        a = ctx.analysis(f)
+        T = a.T
+        k = 0
+        for nid, ev in sorted(a.all_events('call'), key=lambda x: (x[1][3] if len(x[1]) > 3 and isinstance(x[1][3], int) else 0, x[0])):
+            if ev[1] != 'gcry_cipher_setiv' or len(ev[2]) < 2:
+                continue
+            cells, bname = carried_cells(a, ev[2][1], a.instate[nid])
+            if bname is None:
+                continue            # the IV is handed over as it came (single-shot mode)
+            k += 1
+            n += 1
+            key = 'R19k:%s:setiv#%d' % (name, k)
+            line = ev[3] if len(ev) > 3 and isinstance(ev[3], int) else None
+            if cells:
+                ctx.bad('R19k', key, 'the nonce of a chunk is computed from the nonce of the previous chunk: cells %s of `%s` are loop-carried at this '
+                        'gcry_cipher_setiv, so chunk c is processed under IV xor (0^1^..^c) instead of IV xor c (wrong octets from the third chunk on, '
+                        'and the nonce of chunk 0 is used again for chunk 3)' % (cells[:8], bname), f, line=line)
+            else:
+                ctx.ok('R19k', key, 'the nonce is the starting IV with the chunk index mixed in (no cell of the nonce buffer is loop-carried)', f, line=line)
+    ctx.floor('R19k', n, 6)
